@@ -714,4 +714,365 @@ theorem readdKvs : ∀ (kvs : List (String × Node)), (∀ e ∈ kvs, e.2.WF ∧
     · exact readdKvs r (fun z hz => h z (List.mem_cons_of_mem _ hz)) e he hne S hS q
 end
 
+/-! ## structured emission for compatible documents -/
+
+/-- the C08 domain: wherever both sides define a keyed position the kinds agree, scalars are
+    equal, containers are recursively compatible; lists are unconstrained -/
+inductive Compat : Node → Node → Prop
+  | leaf (v : Scalar) : Compat (.leaf v) (.leaf v)
+  | list (xs ys : List Node) : Compat (.list xs) (.list ys)
+  | cont {l r : List (String × Node)} :
+      (∀ k x y, AMap.get? l k = some x → AMap.get? r k = some y → Compat x y) → Compat (.cont l) (.cont r)
+
+def M.push (k : String) : M → M
+  | .a p => .a (.key k p)
+  | .d ks => .d (k :: ks)
+
+/-- second loop of diff(): Deletes of right-only keys -/
+def emitRightM : List (String × Node) → AMap Node → List M
+  | [], _ => []
+  | (k, _) :: rest, l =>
+    (match AMap.get? l k with
+     | some _ => []
+     | none => [M.d [k]]) ++ emitRightM rest l
+
+mutual
+/-- what Diff emits for a compatible pair, relative to the pair's position -/
+def emitM : Node → Node → List M
+  | .cont l, y => match y with
+    | .cont r => emitLeftM l r ++ emitRightM r l
+    | _ => []
+  | .list xs, y => match y with
+    | .list ys => if equals (.list xs) (.list ys) then [] else M.d [] :: (relList xs 0).map M.a
+    | _ => []
+  | .leaf _, _ => []
+def emitLeftM : List (String × Node) → AMap Node → List M
+  | [], _ => []
+  | (k, n) :: rest, r =>
+    (match AMap.get? r k with
+     | some n2 => (emitM n n2).map (M.push k)
+     | none => (rel n).map (fun p => M.a (.key k p))) ++ emitLeftM rest r
+end
+
+theorem popM_push (k k' : String) (m : M) : popM k (M.push k' m) = if k' = k then some m else none := by
+  cases m <;> rfl
+
+theorem filterMap_popM_push (T : List M) (k k' : String) :
+    (T.map (M.push k')).filterMap (popM k) = if k' = k then T else [] := by
+  induction T with
+  | nil => simp
+  | cons t T ih =>
+    simp only [List.map_cons, List.filterMap_cons, popM_push]
+    by_cases e : k' = k
+    · simp only [e, if_true] at ih ⊢; rw [ih]
+    · simp only [e, if_false] at ih ⊢; exact ih
+
+theorem filterMap_popM_addkey (T : List AP) (k k' : String) :
+    (T.map (fun p => M.a (.key k' p))).filterMap (popM k) = if k' = k then T.map M.a else [] := by
+  induction T with
+  | nil => simp
+  | cons t T ih =>
+    simp only [List.map_cons, List.filterMap_cons, popM]
+    by_cases e : k' = k
+    · simp only [e, if_true] at ih ⊢; rw [ih]
+    · simp only [e, if_false] at ih ⊢; exact ih
+
+def leftBlockM (n : Node) : Option Node → List M
+  | some n2 => emitM n n2
+  | none => (rel n).map M.a
+
+theorem emitLeftM_pop : ∀ (xs : List (String × Node)) (r : AMap Node), AMap.Sorted xs → ∀ k,
+    (emitLeftM xs r).filterMap (popM k) = match AMap.get? xs k with
+      | some n => leftBlockM n (AMap.get? r k)
+      | none => []
+  | [], _, _, _ => rfl
+  | (k0, n) :: rest, r, hs, k => by
+    simp only [emitLeftM, List.filterMap_append, AMap.get?]
+    rw [emitLeftM_pop rest r hs.tail k]
+    by_cases e : k = k0
+    · subst e
+      simp only [if_true]
+      rw [AMap.get?_of_allGt hs.head_lt]
+      cases AMap.get? r k with
+      | none => simp only [filterMap_popM_addkey, if_true, leftBlockM, List.append_nil]
+      | some n2 => simp only [filterMap_popM_push, if_true, leftBlockM, List.append_nil]
+    · have e' : k0 ≠ k := fun h => e h.symm
+      simp only [if_neg e]
+      cases AMap.get? r k0 with
+      | none => simp only [filterMap_popM_addkey, if_neg e', List.nil_append]
+      | some n2 => simp only [filterMap_popM_push, if_neg e', List.nil_append]
+
+theorem emitRightM_pop : ∀ (ys : List (String × Node)) (l : AMap Node), AMap.Sorted ys → ∀ k,
+    (emitRightM ys l).filterMap (popM k) = match AMap.get? ys k with
+      | some _ => (match AMap.get? l k with
+        | some _ => []
+        | none => [M.d []])
+      | none => []
+  | [], _, _, _ => rfl
+  | (k0, n) :: rest, l, hs, k => by
+    simp only [emitRightM, List.filterMap_append, AMap.get?]
+    rw [emitRightM_pop rest l hs.tail k]
+    by_cases e : k = k0
+    · subst e
+      simp only [if_true]
+      rw [AMap.get?_of_allGt hs.head_lt]
+      cases AMap.get? l k with
+      | none => simp [popM]
+      | some _ => simp
+    · have e' : k0 ≠ k := fun h => e h.symm
+      simp only [if_neg e]
+      cases AMap.get? l k0 with
+      | none => simp [popM, e']
+      | some _ => simp
+
+theorem keyed_emitRightM : ∀ (ys : List (String × Node)) (l : AMap Node), ∀ m ∈ emitRightM ys l, m.Keyed
+  | [], _, _, h => by cases h
+  | (k0, n) :: rest, l, m, h => by
+    simp only [emitRightM, List.mem_append] at h
+    rcases h with h | h
+    · split at h
+      · cases h
+      · simp only [List.mem_singleton] at h; subst h; trivial
+    · exact keyed_emitRightM rest l m h
+
+theorem keyed_push (k : String) (m : M) : (M.push k m).Keyed := by cases m <;> trivial
+
+theorem keyed_emitLeftM : ∀ (xs : List (String × Node)) (r : AMap Node), ∀ m ∈ emitLeftM xs r, m.Keyed
+  | [], _, _, h => by cases h
+  | (k0, n) :: rest, r, m, h => by
+    simp only [emitLeftM, List.mem_append] at h
+    rcases h with h | h
+    · split at h
+      · simp only [List.mem_map] at h
+        obtain ⟨p, _, rfl⟩ := h
+        exact keyed_push _ _
+      · simp only [List.mem_map] at h
+        obtain ⟨p, _, rfl⟩ := h
+        trivial
+    · exact keyed_emitLeftM rest r m h
+
+/-! ## admissible orders -/
+
+/-- the Delete at `ks` removes a position strictly above the Add `p` -/
+def Above : List String → AP → Prop
+  | [], .leaf _ => False
+  | [], _ => True
+  | k :: ks, .key k' m => k = k' ∧ Above ks m
+  | _ :: _, _ => False
+
+/-- no Add is followed by a Delete of a position above it -/
+def OrdR : M → M → Prop
+  | .a p, .d ks => ¬ Above ks p
+  | _, _ => True
+
+def Ord (S : List M) : Prop := S.Pairwise OrdR
+
+theorem Ord.pop {S : List M} (h : Ord S) (k : String) : Ord (S.filterMap (popM k)) := by
+  apply List.Pairwise.filterMap (popM k) _ h
+  intro m1 m2 hR b1 hb1 b2 hb2
+  cases m1 with
+  | d ks1 =>
+    cases ks1 with
+    | nil => simp [popM] at hb1
+    | cons k1 ks1 =>
+      simp only [popM] at hb1
+      split at hb1
+      · simp only [Option.mem_def, Option.some.injEq] at hb1; subst hb1; simp [OrdR]
+      · simp at hb1
+  | a p1 =>
+    cases p1 with
+    | leaf _ => simp [popM] at hb1
+    | idx _ _ => simp [popM] at hb1
+    | key k1 p1 =>
+      simp only [popM] at hb1
+      split at hb1
+      · rename_i e1
+        simp only [Option.mem_def, Option.some.injEq] at hb1
+        subst hb1
+        cases m2 with
+        | a p2 =>
+          have hq : ∃ q, b2 = M.a q := by
+            cases p2 with
+            | key k2 q =>
+              simp only [popM] at hb2
+              split at hb2
+              · simp only [Option.mem_def, Option.some.injEq] at hb2; exact ⟨q, hb2.symm⟩
+              · simp at hb2
+            | leaf _ => simp [popM] at hb2
+            | idx _ _ => simp [popM] at hb2
+          obtain ⟨q, rfl⟩ := hq
+          simp [OrdR]
+        | d ks2 =>
+          cases ks2 with
+          | nil => simp [popM] at hb2
+          | cons k2 ks2 =>
+            simp only [popM] at hb2
+            split at hb2
+            · rename_i e2
+              simp only [Option.mem_def, Option.some.injEq] at hb2
+              subst hb2
+              simp only [OrdR, Above] at hR ⊢
+              intro ha
+              exact hR ⟨by rw [e1, e2], ha⟩
+            · simp at hb2
+      · simp at hb1
+
+/-! ## reconstruction -/
+
+theorem exists_perm_map {α β : Type} (f : α → β) : ∀ {l1 l2 : List β}, l1.Perm l2 → ∀ (l : List α), l2 = l.map f →
+    ∃ s : List α, s.Perm l ∧ s.map f = l1 := by
+  intro l1 l2 h
+  induction h with
+  | nil =>
+    intro l hl
+    cases l with
+    | nil => exact ⟨[], .refl _, rfl⟩
+    | cons _ _ => simp at hl
+  | cons x _ ih =>
+    intro l hl
+    cases l with
+    | nil => simp at hl
+    | cons a l0 =>
+      simp only [List.map_cons, List.cons.injEq] at hl
+      obtain ⟨s0, hs0, hm⟩ := ih l0 hl.2
+      exact ⟨a :: s0, hs0.cons a, by simp [hm, hl.1]⟩
+  | swap x y l' =>
+    intro l hl
+    cases l with
+    | nil => simp at hl
+    | cons a l0 =>
+      cases l0 with
+      | nil => simp at hl
+      | cons b l1 =>
+        simp only [List.map_cons, List.cons.injEq] at hl
+        exact ⟨b :: a :: l1, List.Perm.swap .., by simp [hl.1, hl.2.1, hl.2.2]⟩
+  | trans _ _ ih1 ih2 =>
+    intro l hl
+    obtain ⟨s2, hs2, hm2⟩ := ih2 l hl
+    obtain ⟨s1, hs1, hm1⟩ := ih1 s2 hm2.symm
+    exact ⟨s1, hs1.trans hs2, hm1⟩
+
+/-- a run of Adds of a node's leaves on an absent position -/
+theorem flatO_adds (n : Node) (hw : n.WF) (hi : n.ItemsHaveScalars) (T : List M) (hT : T.Perm ((rel n).map M.a))
+    (q : String) : flatO (T.foldl (fun o m => act m o) none) q = flattenNode n q := by
+  obtain ⟨T', hT', rfl⟩ := exists_perm_map M.a hT _ rfl
+  by_cases hr : rel n = []
+  · rw [hr] at hT'
+    rw [hT'.eq_nil, flattenNode_nil_of_rel hr]
+    rfl
+  · have hne : T' ≠ [] := fun e => hr (by rw [e] at hT'; exact hT'.nil_eq.symm)
+    rw [foldl_act_adds T' none hne]
+    simp only [flatO, Option.getD_none]
+    exact readd n hw hi hr T' hT' q
+
+mutual
+/-- applying, in any admissible order, what Diff emits for a compatible pair to the right side
+    gives the flattened view of the left side -/
+theorem recon : ∀ (x y : Node), x.Valid → y.Valid → x.ItemsHaveScalars → Compat x y →
+    ∀ S : List M, S.Perm (emitM x y) → Ord S →
+    ∀ q, flatO (S.foldl (fun o m => act m o) (some y)) q = flattenNode x q
+  | .leaf v, y, _, _, _, hc, S, hS, _, q => by
+    cases hc
+    simp only [emitM] at hS
+    rw [hS.eq_nil]
+    rfl
+  | .list xs, y, hx, hy, hi, hc, S, hS, hO, q => by
+    cases hc with
+    | list _ ys =>
+      simp only [emitM] at hS
+      by_cases he : equals (.list xs) (.list ys) = true
+      · rw [if_pos he] at hS
+        rw [hS.eq_nil, (equals_iff_eq hx hy).mp he]
+        rfl
+      · rw [if_neg he] at hS
+        have hfirst : ∃ S', S = M.d [] :: S' ∧ S'.Perm ((relList xs 0).map M.a) := by
+          cases S with
+          | nil => exact absurd hS.symm.eq_nil (by simp)
+          | cons m S' =>
+            cases m with
+            | d ks =>
+              have hm : M.d ks ∈ M.d [] :: (relList xs 0).map M.a := hS.mem_iff.mp (List.mem_cons_self ..)
+              rcases List.mem_cons.mp hm with e | hm
+              · cases e; exact ⟨S', rfl, hS.cons_inv⟩
+              · simp at hm
+            | a p =>
+              exfalso
+              have hd : M.d [] ∈ M.a p :: S' := hS.mem_iff.mpr (List.mem_cons_self ..)
+              have hd' : M.d [] ∈ S' := by
+                rcases List.mem_cons.mp hd with e | h
+                · cases e
+                · exact h
+              have hp : M.a p ∈ M.d [] :: (relList xs 0).map M.a := hS.mem_iff.mp (List.mem_cons_self ..)
+              have hp' : p ∈ relList xs 0 := by simpa using hp
+              obtain ⟨j, m, _, rfl, _, _⟩ := mem_relList hp'
+              have := (List.pairwise_cons.mp hO).1 _ hd'
+              simp [OrdR, Above] at this
+        obtain ⟨S', rfl, hS'⟩ := hfirst
+        simp only [List.foldl_cons, act, actD]
+        exact flatO_adds (.list xs) hx.1 hi S' hS' q
+  | .cont l, y, hx, hy, hi, hc, S, hS, hO, q => by
+    cases hc with
+    | @cont _ r hc =>
+      simp only [emitM] at hS
+      have hkeyed : ∀ m ∈ S, m.Keyed := by
+        intro m hm
+        rcases List.mem_append.mp (hS.mem_iff.mp hm) with h | h
+        · exact keyed_emitLeftM _ _ m h
+        · exact keyed_emitRightM _ _ m h
+      rw [foldl_act_keyed S r hkeyed]
+      obtain ⟨hsorted, hget⟩ := get?_foldl_actK S r hy.sorted hkeyed
+      simp only [flatO, flattenNode]
+      apply flattenKvs_congr _ l hsorted hx.sorted
+      intro k q'
+      rw [hget k]
+      have hperm := hS.filterMap (popM k)
+      rw [List.filterMap_append, emitLeftM_pop l r hx.sorted k, emitRightM_pop r l hy.sorted k] at hperm
+      have hOk := hO.pop k
+      generalize S.filterMap (popM k) = T at hperm hOk
+      cases hl : AMap.get? l k with
+      | none =>
+        rw [hl] at hperm
+        cases hr : AMap.get? r k with
+        | none =>
+          rw [hr] at hperm
+          simp only [List.append_nil] at hperm
+          rw [hperm.eq_nil]
+          rfl
+        | some y' =>
+          rw [hr] at hperm
+          simp only [List.nil_append, List.perm_singleton] at hperm
+          rw [hperm]
+          rfl
+      | some x' =>
+        rw [hl] at hperm
+        have hmem := AMap.mem_of_get? hl
+        cases hr : AMap.get? r k with
+        | none =>
+          rw [hr] at hperm
+          simp only [leftBlockM, List.append_nil] at hperm
+          simp only [flatO]
+          exact flatO_adds x' (hx.of_cont_mem hmem).1.1 (hi.of_cont hmem) T hperm q'
+        | some y' =>
+          rw [hr] at hperm
+          simp only [leftBlockM, List.append_nil] at hperm
+          simp only [flatO]
+          exact reconKvs l r (fun e he => ⟨(hx.of_cont_mem he).1, hi.of_cont he⟩)
+            (fun e he y hg => ⟨get?_valid hy hg, hc e.1 e.2 y (AMap.get?_of_mem hx.sorted he) hg⟩)
+            (k, x') hmem y' hr T hperm hOk q'
+theorem reconKvs : ∀ (xs : List (String × Node)) (r : AMap Node),
+    (∀ e ∈ xs, e.2.Valid ∧ e.2.ItemsHaveScalars) →
+    (∀ e ∈ xs, ∀ y, AMap.get? r e.1 = some y → y.Valid ∧ Compat e.2 y) →
+    ∀ e ∈ xs, ∀ y, AMap.get? r e.1 = some y → ∀ S : List M, S.Perm (emitM e.2 y) → Ord S →
+    ∀ q, flatO (S.foldl (fun o m => act m o) (some y)) q = flattenNode e.2 q
+  | [], _, _, _, _, he, _, _, _, _, _, _ => by cases he
+  | (k, x) :: rest, r, h1, h2, e, he, y, hg, S, hS, hO, q => by
+    rcases List.mem_cons.mp he with e' | he
+    · have a1 := h1 (k, x) (List.mem_cons_self ..)
+      rw [e'] at hS hg ⊢
+      have a2 := h2 (k, x) (List.mem_cons_self ..) y hg
+      exact recon x y a1.1 a2.1 a1.2 a2.2 S hS hO q
+    · exact reconKvs rest r (fun z hz => h1 z (List.mem_cons_of_mem _ hz))
+        (fun z hz => h2 z (List.mem_cons_of_mem _ hz)) e he y hg S hS hO q
+end
+
 end Ytk
